@@ -11,7 +11,7 @@ CHECKS = {
     'C02': dict(level='exploration', runs=_e1v('C02'), percase=5, deadline=dict(quick=150, thorough=1500)),
     'C03': dict(level='exploration', runs=_e1v('C03'), percase=5, deadline=dict(quick=150, thorough=1500)),
     'C04': dict(level='exploration', runs=_e1('C04') + _e1('C04x', 'h_e1x'), percase=5, deadline=dict(quick=200, thorough=1500)),
-    'C05': dict(level='exploration', runs=_e1('C05', 'h_e1x'), percase=5, deadline=dict(quick=150, thorough=1500)),
+    'C05': dict(level='exploration', runs=_e1v('C05', 'h_e1x', ('ref', 'obl', 'asan')), percase=5, deadline=dict(quick=150, thorough=1500)),
     'C10': dict(level='exploration', runs=_e1v('C10', 'h_k', ('ref', 'i64', 'asan')), percase=10, deadline=dict(quick=150, thorough=1500)),
     'C11': dict(level='exploration', runs=_e1v('C11', 'h_k', ('ref', 'asan')), percase=5, deadline=dict(quick=150, thorough=1500)),
     'C14': dict(level='exploration', runs=_e1v('C14', 'h_k2', ('ref', 'obl', 'asan')), percase=5, deadline=dict(quick=150, thorough=1500)),
@@ -19,10 +19,10 @@ CHECKS = {
     'C18': dict(level='exploration', runs=_e1v('C18', 'h_k4', ('ref', 'asan')), percase=5, deadline=dict(quick=60, thorough=300)),
     'C16': dict(level='exploration', runs=_e1v('C16', 'h_rd', ('ref', 'asan')), percase=5, deadline=dict(quick=100, thorough=600)),
     'C15': dict(level='exploration', runs=_e1v('C15', 'h_ilu', ('ref', 'obl')), percase=5, deadline=dict(quick=150, thorough=1500)),
-    'C12': dict(level='exploration', runs=_e1('C12', 'h_e1x'), percase=5, deadline=dict(quick=150, thorough=1500)),
-    'C13': dict(level='exploration', runs=_e1('C13', 'h_e1x'), percase=5, deadline=dict(quick=150, thorough=1500)),
-    'C06': dict(level='model_checking', runs=_e1('C06', 'h_e3'), percase=20, deadline=dict(quick=150, thorough=1500),
-                mc_cov=lambda cn: dict(states=cn.get('C06/ref:states', 0), transitions=cn.get('C06/ref:transitions', 0), traces_validated_against_impl=cn.get('C06/ref:transitions', 0),
+    'C12': dict(level='exploration', runs=_e1v('C12', 'h_e1x', ('ref', 'obl')), percase=5, deadline=dict(quick=150, thorough=1500)),
+    'C13': dict(level='exploration', runs=_e1v('C13', 'h_e1x', ('ref', 'obl')), percase=5, deadline=dict(quick=150, thorough=1500)),
+    'C06': dict(level='model_checking', runs=_e1v('C06', 'h_e3', ('ref', 'obl')), percase=20, deadline=dict(quick=150, thorough=1500),
+                mc_cov=lambda cn: dict(states=cn.get('C06/ref:states', 0) + cn.get('C06/obl:states', 0), transitions=cn.get('C06/ref:transitions', 0) + cn.get('C06/obl:transitions', 0), traces_validated_against_impl=cn.get('C06/ref:transitions', 0) + cn.get('C06/obl:transitions', 0),
                                        explanation='states = canonical hashes of the real session objects summed over configurations; every transition is one real xgssvx call judged by the oracles, so every explored trace is executed on the implementation')),
     'C19': dict(level='model_checking', runs=_e1v('C19', 'h_life', ('ref', 'asan')), percase=10, deadline=dict(quick=200, thorough=1800),
                 mc_cov=lambda cn: dict(states=cn.get('C19/ref:states', 0) + cn.get('C19/asan:states', 0), transitions=cn.get('C19/ref:transitions', 0) + cn.get('C19/asan:transitions', 0),
